@@ -1,5 +1,8 @@
 import NmVerif.Static
+import NmVerif.StaticMore
+import NmVerif.StaticEval
 import NmVerif.Lemmas.Static
+import NmVerif.Lemmas.StaticMore
 /-
   C11 — statically inferred shape, size and bounds agree with every run-time instance.
 
@@ -51,11 +54,10 @@ theorem traits_sound {i : SInfo} {s : Shape} (h : i.γ s) :
     | dyn => simp [SInfo.boundedDim, hsh, ShapeK.len?] at hk
   · intro n hn
     cases hsz : i.size <;> simp [SInfo.fixedSize, hsz] at hn
-    simp only [hsz, SizeK.γ] at hz; omega
+    all_goals (simp only [hsz, SizeK.γ] at hz; omega)
   · intro n hn
     cases hsz : i.size <;> simp [SInfo.boundedSize, hsz] at hn
-    · simp only [hsz, SizeK.γ] at hz; omega
-    · simp only [hsz, SizeK.γ] at hz; omega
+    all_goals (simp only [hsz, SizeK.γ] at hz; omega)
 
 example : (⟨.clipped [2, 3], .atMost 6⟩ : SInfo).γ [1, 3] := by decide
 example : (⟨.clipped [2, 3], .atMost 6⟩ : SInfo).boundedSize = some 6 := rfl
@@ -116,6 +118,10 @@ theorem flatten_static_sound {i o : SInfo} {s : Shape} (h : i.γ s) (ho : transf
   | any =>
     simp only [hsz, transferReshape, Option.some.injEq] at ho; subst ho
     exact indexingInfo_sound (by simp [ArrK.toShapeK, ShapeK.γ, refFlatten]) trivial
+  | knownB n b =>
+    simp only [hsz, transferReshape, Option.some.injEq] at ho; subst ho
+    simp only [hsz, SizeK.γ] at hz
+    exact indexingInfo_sound (by simp [ArrK.toShapeK, ShapeK.γ, refFlatten, hz.1]) (by rw [hp]; simp only [hsz, SizeK.γ]; exact hz)
 
 example : transferFlatten ⟨.fixedDim 2, .atMost 6⟩ = some ⟨.clipped [6], .atMost 6⟩ := by decide
 
@@ -606,7 +612,7 @@ theorem concat_static_sound {i j o : SInfo} {a b t : Shape} {k : AxisK} {axis : 
   have hsum : (sumSizeK i.size j.size).γ (prod t) := by
     have h1 := hi.2; have h2 := hj.2
     rw [hprod]
-    cases hx : i.size <;> cases hy : j.size <;> simp only [hx, hy, SizeK.γ, sumSizeK] at h1 h2 ⊢ <;> omega
+    cases hx : i.size <;> cases hy : j.size <;> simp only [hx, hy, SizeK.γ, sumSizeK, SizeK.fixed?, SizeK.bound?] at h1 h2 ⊢ <;> omega
   have key : ∀ d, concatShapeK k i.seen j.seen = some d → (concatInfo i.size j.size d).γ t := by
     intro d hd
     have hdγ := concatShapeK_sound (seen_sound hi) (seen_sound hj) hk hr hd
@@ -627,6 +633,258 @@ theorem concat_static_sound {i j o : SInfo} {a b t : Shape} {k : AxisK} {axis : 
 example : refConcat (some 0) [2, 3] [1, 3] = some [3, 3] := by decide
 example : transferConcat (.cts 0) ⟨.const [2, 3], .known 6⟩ ⟨.clipped [1, 3], .atMost 3⟩ = some ⟨.clipped [3, 3], .atMost 9⟩ := by decide
 
+/-! ## second group: repeat, pad, accumulate, roll, flip, slice, moveaxis, take, atleast_nd, number operand -/
+
+theorem repeat_static_sound {i o : SInfo} {s t : Shape} {rep : NumK} {r : Nat} {ax : AxisK} {axis : Option Nat}
+    (h : i.γ s) (hr : rep.γ r) (hax : ax.γ1 axis) (href : refRepeat r axis s = some t)
+    (ho : transferRepeat rep ax i = some o) : o.γ t := by
+  simp only [transferRepeat, Option.map_eq_some_iff] at ho
+  obtain ⟨d, hd, rfl⟩ := ho
+  exact indexing_product_sound (repeatShapeK_sound (seen_sound h).1 hr hax href hd)
+
+example : refRepeat 2 (some 0) [2, 3] = some [4, 3] ∧ refRepeat 3 none [2, 3] = some [18] := by decide
+example : transferRepeat (.ct 2) (.cts 0) ⟨.clipped [2, 3], .atMost 6⟩ = some ⟨.clipped [4, 3], .atMost 12⟩ := by decide
+example : transferRepeat .rt .none ⟨.const [2, 3], .known 6⟩ = some ⟨.fixedDim 1, .any⟩ := by decide
+
+theorem pad_static_sound {i o : SInfo} {s t : Shape} {w : ArrK} {pw : List Nat}
+    (h : i.γ s) (hk : w.γ pw) (href : refPad pw s = some t) (ho : transferPad w i = some o) : o.γ t := by
+  simp only [transferPad, Option.map_eq_some_iff] at ho
+  obtain ⟨d, hd, rfl⟩ := ho
+  exact indexing_product_sound (padShapeK_sound (seen_sound h).1 hk href hd)
+
+example : refPad [1, 0, 0, 2] [2, 3] = some [3, 5] := by decide
+example : transferPad (.cl [2, 1, 1, 3]) ⟨.const [2, 3], .known 6⟩ = some ⟨.clipped [5, 7], .atMost 35⟩ := by decide
+
+/-- cumsum / cumprod: the result has the shape of the operand -/
+theorem accumulate_static_sound {i o : SInfo} {s t : Shape} {axis : Nat}
+    (h : i.γ s) (href : refAccumulate axis s = some t) (ho : transferAccumulate i = some o) : o.γ t := by
+  simp only [refAccumulate] at href
+  split at href
+  · simp only [Option.some.injEq] at href; subst href
+    simp only [transferAccumulate, Option.some.injEq] at ho; subst ho
+    exact accumulateInfo_sound h
+  · simp at href
+
+example : transferAccumulate ⟨.clipped [2, 3], .any⟩ = some ⟨.clipped [2, 3], .any⟩ ∧
+    transferAccumulate ⟨.fixedDim 2, .known 6⟩ = some ⟨.fixedDim 2, .known 6⟩ := by decide
+
+theorem roll_static_sound {i o : SInfo} {s t : Shape} {shift : NumK} {ax : AxisK} {axis : Option Nat}
+    (h : i.γ s) (hax : ax.γ1 axis) (href : refRoll axis s = some t) (ho : transferRoll shift ax i = some o) : o.γ t := by
+  have := refRoll_eq href; subst this
+  cases ax with
+  | none =>
+    simp only [transferRoll, Option.map_eq_some_iff] at ho
+    obtain ⟨f, hf, rfl⟩ := ho
+    have hfl : f.γ (refFlatten t) := flatten_static_sound h hf
+    have hr := seen_sound (rollAxisInfo_sound shift.isCt hfl)
+    refine indexingInfo_sound (seen_sound h).1 ?_
+    have := hr.2
+    simpa [refFlatten, prod] using this
+  | cts x => simp only [transferRoll, Option.some.injEq] at ho; subst ho; exact rollAxisInfo_sound _ h
+  | rts => simp only [transferRoll, Option.some.injEq] at ho; subst ho; exact rollAxisInfo_sound _ h
+  | ctt c => simp [transferRoll] at ho
+  | rt n => simp [transferRoll] at ho
+
+example : transferRoll .rt .none ⟨.clipped [2, 3], .atMost 6⟩ = some ⟨.clipped [2, 3], .atMost 6⟩ ∧
+    transferRoll (.ct 1) (.cts 0) ⟨.clipped [2, 3], .atMost 6⟩ = some ⟨.fixedDim 2, .atMost 6⟩ := by decide
+
+theorem flip_static_sound {i o : SInfo} {s t : Shape} {axis : Option Nat}
+    (h : i.γ s) (href : refFlip axis s = some t) (ho : transferFlip i = some o) : o.γ t := by
+  have := refRoll_eq href; subst this
+  simp only [transferFlip, Option.map_eq_some_iff] at ho
+  obtain ⟨d, hd, rfl⟩ := ho
+  exact indexing_product_sound (sliceShapeK_sound (seen_sound h).1 (by simp) hd)
+
+example : transferFlip ⟨.const [2, 3], .known 6⟩ = some ⟨.fixedDim 2, .any⟩ := by decide
+
+theorem slice_static_sound {i o : SInfo} {s t : Shape} {es : List SlE}
+    (h : i.γ s) (href : refSlice es s = some t) (ho : transferSlice es i = some o) : o.γ t := by
+  simp only [transferSlice, Option.map_eq_some_iff] at ho
+  obtain ⟨d, hd, rfl⟩ := ho
+  exact indexing_product_sound (sliceShapeK_sound (seen_sound h).1 (refSlice_length href) hd)
+
+example : refSlice [.idx 0, .ell] [2, 3] = some [3] ∧ refSlice [.ell, .rng 0 1] [2, 3] = some [2, 1] := by decide
+example : transferSlice [.idx 0, .ell] ⟨.boundedDim 3, .any⟩ = some ⟨.boundedDim 3, .any⟩ ∧
+    transferSlice [.idx 0, .ell] ⟨.clipped [2, 3], .atMost 6⟩ = some ⟨.fixedDim 1, .any⟩ := by decide
+
+/-- the admitted run-time (source, destination) of a moveaxis with compile-time arguments are those constants -/
+def moveArgsOk : Option (Nat × Nat) → Nat → Nat → Prop
+  | some (a, b), src, dst => src = a ∧ dst = b
+  | none, _, _ => True
+
+theorem moveaxis_static_sound {i o : SInfo} {s t : Shape} {ct : Option (Nat × Nat)} {src dst : Nat}
+    (h : i.γ s) (hk : moveArgsOk ct src dst) (href : refMoveaxis src dst s = some t)
+    (ho : transferMoveaxis ct i = some o) : o.γ t := by
+  simp only [refMoveaxis] at href
+  split at href
+  · have hrt : ∀ {o'}, transferTranspose (some .rtv) i = some o' → o'.γ t :=
+      fun ho' => transpose_static_sound (k := some .rtv) (axes := some _) h (by simp [axesOk, ArrK.γ]) href ho'
+    unfold transferMoveaxis at ho
+    split at ho
+    · rename_i l a b hsh
+      obtain ⟨rfl, rfl⟩ := hk
+      have hs := (seen_sound h).1
+      rw [hsh] at hs; simp only [ShapeK.γ] at hs; subst hs
+      exact transpose_static_sound (k := some (.ct _)) (axes := some _) h (by simp [axesOk, ArrK.γ]) href ho
+    · simp at ho
+    · exact hrt ho
+  · simp at href
+
+example : refMoveaxis 0 2 [2, 3, 4] = some [3, 4, 2] := by decide
+example : transferMoveaxis (some (0, 1)) ⟨.const [2, 3], .known 6⟩ = some ⟨.const [3, 2], .known 6⟩ := by decide
+
+theorem take_static_sound {i o : SInfo} {s t : Shape} {idx : ArrK} {ix : List Nat} {ax : AxisK} {axis : Nat}
+    (h : i.γ s) (hk : idx.γ ix) (hax : ax.γ1 (some axis)) (href : refTake ix.length axis s = some t)
+    (ho : transferTake idx ax i = some o) : o.γ t := by
+  simp only [transferTake, Option.map_eq_some_iff] at ho
+  obtain ⟨d, hd, rfl⟩ := ho
+  exact takeInfo_sound (takeShapeK_sound (seen_sound h).1 hk hax href hd)
+
+example : refTake 3 0 [2, 3] = some [3, 3] := by decide
+example : transferTake (.ct [0, 0, 0]) (.cts 0) ⟨.clipped [2, 3], .atMost 6⟩ = some ⟨.clipped [3, 3], .any⟩ := by decide
+
+theorem atleast_nd_static_sound {i o : SInfo} {s : Shape} (nd : Nat)
+    (h : i.γ s) (ho : transferAtleastNd nd i = some o) : o.γ (refAtleastNd nd s) := by
+  simp only [transferAtleastNd, Option.some.injEq, reshapeByKind] at ho; subst ho
+  have hs := seen_sound h
+  exact indexingInfo_sound (atleastShapeK_sound nd hs.1) (by rw [prod_refAtleastNd]; exact hs.2)
+
+example : refAtleastNd 3 [2, 3] = [1, 2, 3] := by decide
+example : transferAtleastNd 3 ⟨.boundedDim 2, .any⟩ = some ⟨.boundedDim 3, .any⟩ := by decide
+
+/-- binary ufunc with a number operand (`view::multiply(a, 3)`) -/
+theorem mulscalar_static_sound {i o : SInfo} {s : Shape} (h : i.γ s) (ho : transferMulScalar i = some o) : o.γ s := by
+  simp only [transferMulScalar, Option.some.injEq] at ho; subst ho
+  exact ufuncInfo_sound (seen_sound h).1 trivial
+
+example : transferMulScalar ⟨.fixedDim 2, .known 6⟩ = some ⟨.fixedDim 2, .any⟩ := by decide
+
+/-! ### where (three operands broadcast to one shape; sizes by the decorator default) -/
+
+theorem bsizeK_sound {B : ShapeK} {zi zj zk : SizeK} {a b c t1 t : Shape} (hB : B.γ t)
+    (h1 : zi.γ (prod a)) (h2 : zj.γ (prod b)) (h3 : zk.γ (prod c))
+    (hr1 : refBroadcast a b = some t1) (hr2 : refBroadcast t1 c = some t) : (bsizeK B [zi, zj, zk]).γ (prod t) := by
+  have hfold : (bsizeStep (bsizeStep zi zj) zk).γ (prod t) := bsizeStep_sound (bsizeStep_sound h1 h2 hr1) h3 hr2
+  cases B with
+  | const l => simp only [ShapeK.γ] at hB; subst hB; simp [bsizeK, SizeK.γ]
+  | clipped m => simpa [bsizeK, SizeK.γ] using (show LeAll t m from hB).prod_le
+  | fixedDim n => simpa [bsizeK] using hfold
+  | boundedDim n => simpa [bsizeK] using hfold
+  | dyn => simpa [bsizeK] using hfold
+
+theorem whereInfo_sound {B : ShapeK} {o : SizeK} {t : Shape} (hB : B.γ t) (ho : o.γ (prod t))
+    (hnk : B.isConst = false → ∀ n, o ≠ .known n) : (whereInfo B o).γ t := by
+  refine ⟨hB, ?_⟩
+  have gen : B.isConst = false → (match o with | .known n => SizeK.known n | .atMost n => .atMost n | _ => .any).γ (prod t) := by
+    intro hc
+    cases o with
+    | known n => exact ho
+    | atMost n => exact ho
+    | any => trivial
+    | knownB n b => trivial
+  cases B with
+  | const l => simp only [ShapeK.γ] at hB; subst hB; simp [whereInfo, SizeK.γ]
+  | clipped m => exact gen rfl
+  | fixedDim n => exact gen rfl
+  | boundedDim n => exact gen rfl
+  | dyn => exact gen rfl
+
+/-- `view::where(c, x, y)`: sound for every operand-type triple outside the class `whereTripled` (see
+    `where_counterexample`), positive extents -/
+theorem where_static_sound {i j k o : SInfo} {a b c t : Shape} (hi : i.γ a) (hj : j.γ b) (hk : k.γ c)
+    (hpa : Pos a) (hpb : Pos b) (hpc : Pos c) (href : refBroadcast3 a b c = some t)
+    (hcls : whereTripled i j k = false) (ho : transferWhere i j k = some o) : o.γ t := by
+  simp only [refBroadcast3, Option.bind_eq_some_iff] at href
+  obtain ⟨t1, hr1, hr2⟩ := href
+  simp only [transferWhere, Option.map_eq_some_iff] at ho
+  obtain ⟨B, hB, rfl⟩ := ho
+  have hB' := hB
+  simp only [broadcastShapeK3, Option.bind_eq_some_iff] at hB'
+  obtain ⟨K1, hK1, hK2⟩ := hB'
+  have si := seen_sound hi; have sj := seen_sound hj; have sk := seen_sound hk
+  have hK1γ : K1.γ t1 := broadcastShapeK_sound si.1 sj.1 hpa hpb hr1 hK1
+  have hp1 : Pos t1 := refBroadcast_pos hpa hpb hr1
+  have hBγ : B.γ t := broadcastShapeK_sound hK1γ sk.1 hp1 hpc hr2 hK2
+  have hZ := bsizeK_sound hBγ si.2 sj.2 sk.2 hr1 hr2
+  have hO := indexingInfo_sound hBγ hZ
+  refine whereInfo_sound hBγ hO.2 ?_
+  intro hc n hn
+  simp only [whereTripled, hB, hc, hn, Bool.not_false, Bool.true_and] at hcls
+  exact absurd hcls (by decide)
+
+example : refBroadcast3 [2, 1] [2, 1] [3] = some [2, 3] := by decide
+example : transferWhere ⟨.const [2, 3], .known 6⟩ ⟨.const [2, 3], .known 6⟩ ⟨.clipped [2, 3], .atMost 6⟩
+    = some ⟨.clipped [2, 3], .atMost 6⟩ := by decide
+
+/-- (the former known finding C11.where-tripled-fixed-size is repaired: both witnesses are now sound) -/
+example : transferWhere ⟨.fixedDim 2, .known 1⟩ ⟨.fixedDim 2, .known 1⟩ ⟨.fixedDim 2, .known 6⟩ = some ⟨.fixedDim 2, .known 6⟩ ∧
+    transferWhere ⟨.fixedDim 2, .known 6⟩ scalarInfo scalarInfo = some ⟨.fixedDim 2, .known 6⟩ ∧
+    (⟨.fixedDim 2, .known 6⟩ : SInfo).γ [2, 3] := by decide
+
+/-- one view of `view::broadcast_arrays(p, q, r)` (number literals are operands with `scalarInfo` and shape `[]`):
+    the size type `index::broadcast_size` derives from the operand sizes is sound for every operand order -/
+theorem broadcast3_static_sound {i j k o : SInfo} {a b c t : Shape} (hi : i.γ a) (hj : j.γ b) (hk : k.γ c)
+    (hpa : Pos a) (hpb : Pos b) (hpc : Pos c) (href : refBroadcast3 a b c = some t)
+    (ho : transferBroadcast3 i j k = some o) : o.γ t := by
+  simp only [refBroadcast3, Option.bind_eq_some_iff] at href
+  obtain ⟨t1, hr1, hr2⟩ := href
+  simp only [transferBroadcast3, Option.map_eq_some_iff] at ho
+  obtain ⟨B, hB, rfl⟩ := ho
+  simp only [broadcastShapeK3, Option.bind_eq_some_iff] at hB
+  obtain ⟨K1, hK1, hK2⟩ := hB
+  have si := seen_sound hi; have sj := seen_sound hj; have sk := seen_sound hk
+  have hK1γ : K1.γ t1 := broadcastShapeK_sound si.1 sj.1 hpa hpb hr1 hK1
+  have hBγ : B.γ t := broadcastShapeK_sound hK1γ sk.1 (refBroadcast_pos hpa hpb hr1) hpc hr2 hK2
+  exact indexingInfo_sound hBγ (bsizeK_sound hBγ si.2 sj.2 sk.2 hr1 hr2)
+
+/-- a fixed-size first operand (2 elements), a number literal, a dynamic operand that stretches the result to (2,7):
+    the first operand's size type must NOT survive (it does when `other_is_all_none` is folded with `||`) -/
+example : transferBroadcast3 ⟨.fixedDim 2, .known 2⟩ scalarInfo ⟨.dyn, .any⟩ = some ⟨.dyn, .any⟩ ∧
+    refBroadcast3 [2, 1] [] [7] = some [2, 7] ∧
+    transferBroadcast3 ⟨.fixedDim 2, .known 6⟩ scalarInfo scalarInfo = some ⟨.fixedDim 2, .known 6⟩ := by decide
+
+/-! ### matmul (operands of rank >= 2) -/
+
+theorem matmulSize_sound {i j : SInfo} {a b t : Shape} (hi : i.γ a) (hj : j.γ b) (hprod : prod t ≤ prod a * prod b) :
+    (matmulSize i j).γ (prod t) := by
+  unfold matmulSize
+  split
+  · rename_i x y hx hy
+    have h1 := bsz_sound hi hx
+    have h2 := bsz_sound hj hy
+    simp only [SizeK.γ]
+    exact Nat.le_trans hprod (Nat.mul_le_mul h1 h2)
+  · trivial
+
+theorem matmul_static_sound {i j o : SInfo} {a b t : Shape} (hi : i.γ a) (hj : j.γ b) (hpa : Pos a) (hpb : Pos b)
+    (href : refMatmul a b = some t) (ho : transferMatmul i j = some o) : o.γ t := by
+  obtain ⟨hlen, _, _, hprod⟩ := refMatmul_spec hpa hpb href
+  have hz := matmulSize_sound hi hj hprod
+  unfold transferMatmul at ho
+  split at ho
+  · rename_i va vb h1 h2
+    have ha := (seen_sound hi).1; rw [h1] at ha; simp only [ShapeK.γ] at ha; subst ha
+    have hb := (seen_sound hj).1; rw [h2] at hb; simp only [ShapeK.γ] at hb; subst hb
+    simp only [Option.map_eq_some_iff] at ho
+    obtain ⟨t', ht', rfl⟩ := ho
+    rw [href] at ht'; simp only [Option.some.injEq] at ht'; subst ht'
+    refine ⟨rfl, ?_⟩
+    simp only
+    split
+    · rename_i bnd hb
+      rw [hb] at hz; simp only [SizeK.γ] at hz ⊢
+      exact ⟨trivial, hz⟩
+    · simp [SizeK.γ]
+  · simp only [Option.map_eq_some_iff] at ho
+    obtain ⟨d, hd, rfl⟩ := ho
+    exact ⟨matmulShapeK_sound (seen_sound hi).1 (seen_sound hj).1 hlen hd, hz⟩
+
+example : refMatmul [4, 2, 3] [3, 5] = some [4, 2, 5] := by decide
+example : transferMatmul ⟨.const [2, 3], .known 6⟩ ⟨.clipped [3, 2], .atMost 6⟩ = some ⟨.fixedDim 2, .atMost 36⟩ := by decide
+/-- two constant shapes: fixed_size 4 next to bounded_size 36 -/
+example : transferMatmul ⟨.const [2, 3], .known 6⟩ ⟨.const [3, 2], .known 6⟩ = some ⟨.const [2, 2], .knownB 4 36⟩ ∧
+    (⟨.const [2, 2], .knownB 4 36⟩ : SInfo).fixedSize = some 4 ∧ (⟨.const [2, 2], .knownB 4 36⟩ : SInfo).boundedSize = some 36 := by decide
+
 /-! ## composition: every view type reachable by composing the modelled operations -/
 
 /-- expression trees of views; every node carries the KIND of its arguments (what the type knows) and their run-time
@@ -644,6 +902,18 @@ inductive Prog where
   | ufunc1 (p : Prog)
   | ufunc2 (p q : Prog)
   | concat (k : AxisK) (axis : Option Nat) (p q : Prog)
+  | repeat (rep : NumK) (r : Nat) (ax : AxisK) (axis : Option Nat) (p : Prog)
+  | pad (w : ArrK) (pw : List Nat) (p : Prog)
+  | accumulate (axis : Nat) (p : Prog)
+  | roll (shift : NumK) (ax : AxisK) (axis : Option Nat) (p : Prog)
+  | flip (axis : Option Nat) (p : Prog)
+  | slice (es : List SlE) (p : Prog)
+  | moveaxis (ct : Option (Nat × Nat)) (src dst : Nat) (p : Prog)
+  | take (idx : ArrK) (ix : List Nat) (ax : AxisK) (axis : Nat) (p : Prog)
+  | atleastNd (nd : Nat) (p : Prog)
+  | mulScalar (p : Prog)
+  | where_ (c x y : Prog)
+  | matmul (p q : Prog)
 
 /-- compile-time knowledge of the view type (the library's metafunctions) -/
 def Prog.static : Prog → Option SInfo
@@ -659,6 +929,18 @@ def Prog.static : Prog → Option SInfo
   | .ufunc1 p => p.static.bind transferUfunc1
   | .ufunc2 p q => p.static.bind (fun i => q.static.bind (fun j => transferUfunc2 i j))
   | .concat k _ p q => p.static.bind (fun i => q.static.bind (fun j => transferConcat k i j))
+  | .repeat rep _ ax _ p => p.static.bind (transferRepeat rep ax)
+  | .pad w _ p => p.static.bind (transferPad w)
+  | .accumulate _ p => p.static.bind transferAccumulate
+  | .roll shift ax _ p => p.static.bind (transferRoll shift ax)
+  | .flip _ p => p.static.bind transferFlip
+  | .slice es p => p.static.bind (transferSlice es)
+  | .moveaxis ct _ _ p => p.static.bind (transferMoveaxis ct)
+  | .take idx _ ax _ p => p.static.bind (transferTake idx ax)
+  | .atleastNd nd p => p.static.bind (transferAtleastNd nd)
+  | .mulScalar p => p.static.bind transferMulScalar
+  | .where_ c x y => c.static.bind (fun i => x.static.bind (fun j => y.static.bind (fun k => transferWhere i j k)))
+  | .matmul p q => p.static.bind (fun i => q.static.bind (fun j => transferMatmul i j))
 
 /-- run-time shape of the view object (reference semantics) for the leaf shapes `env` -/
 def Prog.shape (env : Nat → Shape) : Prog → Option Shape
@@ -674,6 +956,18 @@ def Prog.shape (env : Nat → Shape) : Prog → Option Shape
   | .ufunc1 p => p.shape env
   | .ufunc2 p q => (p.shape env).bind (fun a => (q.shape env).bind (fun b => refBroadcast a b))
   | .concat _ axis p q => (p.shape env).bind (fun a => (q.shape env).bind (fun b => refConcat axis a b))
+  | .repeat _ r _ axis p => (p.shape env).bind (refRepeat r axis)
+  | .pad _ pw p => (p.shape env).bind (refPad pw)
+  | .accumulate axis p => (p.shape env).bind (refAccumulate axis)
+  | .roll _ _ axis p => (p.shape env).bind (refRoll axis)
+  | .flip axis p => (p.shape env).bind (refFlip axis)
+  | .slice es p => (p.shape env).bind (refSlice es)
+  | .moveaxis _ src dst p => (p.shape env).bind (refMoveaxis src dst)
+  | .take _ ix _ axis p => (p.shape env).bind (refTake ix.length axis)
+  | .atleastNd nd p => (p.shape env).map (refAtleastNd nd)
+  | .mulScalar p => p.shape env
+  | .where_ c x y => (c.shape env).bind (fun a => (x.shape env).bind (fun b => (y.shape env).bind (fun d => refBroadcast3 a b d)))
+  | .matmul p q => (p.shape env).bind (fun a => (q.shape env).bind (fun b => refMatmul a b))
 
 /-- side conditions: leaf shapes are instances of the leaf types, argument values are admitted by their kinds,
     extents are positive where the property needs it -/
@@ -690,6 +984,20 @@ def Prog.ok (env : Nat → Shape) : Prog → Prop
   | .ufunc1 p => p.ok env
   | .ufunc2 p q => p.ok env ∧ q.ok env ∧ (∀ a, p.shape env = some a → Pos a) ∧ (∀ b, q.shape env = some b → Pos b)
   | .concat k axis p q => p.ok env ∧ q.ok env ∧ concatAxisOk k axis
+  | .repeat rep r ax axis p => p.ok env ∧ rep.γ r ∧ ax.γ1 axis
+  | .pad w pw p => p.ok env ∧ w.γ pw
+  | .accumulate _ p => p.ok env
+  | .roll _ ax axis p => p.ok env ∧ ax.γ1 axis
+  | .flip _ p => p.ok env
+  | .slice _ p => p.ok env
+  | .moveaxis ct src dst p => p.ok env ∧ moveArgsOk ct src dst
+  | .take idx ix ax axis p => p.ok env ∧ idx.γ ix ∧ ax.γ1 (some axis)
+  | .atleastNd _ p => p.ok env
+  | .mulScalar p => p.ok env
+  -- the operand types of a `where` lie outside the class of the known finding (where_counterexample)
+  | .where_ c x y => c.ok env ∧ x.ok env ∧ y.ok env ∧ (∀ a, c.shape env = some a → Pos a) ∧ (∀ b, x.shape env = some b → Pos b) ∧
+      (∀ d, y.shape env = some d → Pos d) ∧ (∀ i j k, c.static = some i → x.static = some j → y.static = some k → whereTripled i j k = false)
+  | .matmul p q => p.ok env ∧ q.ok env ∧ (∀ a, p.shape env = some a → Pos a) ∧ (∀ b, q.shape env = some b → Pos b)
 
 /-- the statically inferred knowledge of ANY composed view type is true of the run-time shape of every instance -/
 theorem static_sound (env : Nat → Shape) : ∀ (p : Prog) {o : SInfo} {t : Shape},
@@ -742,6 +1050,57 @@ theorem static_sound (env : Nat → Shape) : ∀ (p : Prog) {o : SInfo} {t : Sha
       simp only [Prog.static, Option.bind_eq_some_iff] at ho; simp only [Prog.shape, Option.bind_eq_some_iff] at ht
       obtain ⟨i, hi, j, hj, ho⟩ := ho; obtain ⟨a, ha, b, hb, ht⟩ := ht
       exact concat_static_sound (static_sound env p hok.1 hi ha) (static_sound env q hok.2.1 hj hb) hok.2.2 ht ho
+  | .repeat rep r ax axis p, o, t, hok, ho, ht => by
+      simp only [Prog.static, Option.bind_eq_some_iff] at ho; simp only [Prog.shape, Option.bind_eq_some_iff] at ht
+      obtain ⟨i, hi, ho⟩ := ho; obtain ⟨s, hs, ht⟩ := ht
+      exact repeat_static_sound (static_sound env p hok.1 hi hs) hok.2.1 hok.2.2 ht ho
+  | .pad w pw p, o, t, hok, ho, ht => by
+      simp only [Prog.static, Option.bind_eq_some_iff] at ho; simp only [Prog.shape, Option.bind_eq_some_iff] at ht
+      obtain ⟨i, hi, ho⟩ := ho; obtain ⟨s, hs, ht⟩ := ht
+      exact pad_static_sound (static_sound env p hok.1 hi hs) hok.2 ht ho
+  | .accumulate axis p, o, t, hok, ho, ht => by
+      simp only [Prog.static, Option.bind_eq_some_iff] at ho; simp only [Prog.shape, Option.bind_eq_some_iff] at ht
+      obtain ⟨i, hi, ho⟩ := ho; obtain ⟨s, hs, ht⟩ := ht
+      exact accumulate_static_sound (static_sound env p hok hi hs) ht ho
+  | .roll shift ax axis p, o, t, hok, ho, ht => by
+      simp only [Prog.static, Option.bind_eq_some_iff] at ho; simp only [Prog.shape, Option.bind_eq_some_iff] at ht
+      obtain ⟨i, hi, ho⟩ := ho; obtain ⟨s, hs, ht⟩ := ht
+      exact roll_static_sound (static_sound env p hok.1 hi hs) hok.2 ht ho
+  | .flip axis p, o, t, hok, ho, ht => by
+      simp only [Prog.static, Option.bind_eq_some_iff] at ho; simp only [Prog.shape, Option.bind_eq_some_iff] at ht
+      obtain ⟨i, hi, ho⟩ := ho; obtain ⟨s, hs, ht⟩ := ht
+      exact flip_static_sound (static_sound env p hok hi hs) ht ho
+  | .slice es p, o, t, hok, ho, ht => by
+      simp only [Prog.static, Option.bind_eq_some_iff] at ho; simp only [Prog.shape, Option.bind_eq_some_iff] at ht
+      obtain ⟨i, hi, ho⟩ := ho; obtain ⟨s, hs, ht⟩ := ht
+      exact slice_static_sound (static_sound env p hok hi hs) ht ho
+  | .moveaxis ct src dst p, o, t, hok, ho, ht => by
+      simp only [Prog.static, Option.bind_eq_some_iff] at ho; simp only [Prog.shape, Option.bind_eq_some_iff] at ht
+      obtain ⟨i, hi, ho⟩ := ho; obtain ⟨s, hs, ht⟩ := ht
+      exact moveaxis_static_sound (static_sound env p hok.1 hi hs) hok.2 ht ho
+  | .take idx ix ax axis p, o, t, hok, ho, ht => by
+      simp only [Prog.static, Option.bind_eq_some_iff] at ho; simp only [Prog.shape, Option.bind_eq_some_iff] at ht
+      obtain ⟨i, hi, ho⟩ := ho; obtain ⟨s, hs, ht⟩ := ht
+      exact take_static_sound (static_sound env p hok.1 hi hs) hok.2.1 hok.2.2 ht ho
+  | .atleastNd nd p, o, t, hok, ho, ht => by
+      simp only [Prog.static, Option.bind_eq_some_iff] at ho; simp only [Prog.shape, Option.map_eq_some_iff] at ht
+      obtain ⟨i, hi, ho⟩ := ho; obtain ⟨s, hs, rfl⟩ := ht
+      exact atleast_nd_static_sound nd (static_sound env p hok hi hs) ho
+  | .mulScalar p, o, t, hok, ho, ht => by
+      simp only [Prog.static, Option.bind_eq_some_iff] at ho; simp only [Prog.shape] at ht
+      obtain ⟨i, hi, ho⟩ := ho
+      exact mulscalar_static_sound (static_sound env p hok hi ht) ho
+  | .where_ c x y, o, t, hok, ho, ht => by
+      simp only [Prog.static, Option.bind_eq_some_iff] at ho; simp only [Prog.shape, Option.bind_eq_some_iff] at ht
+      obtain ⟨i, hi, j, hj, k, hk, ho⟩ := ho; obtain ⟨a, ha, b, hb, d, hd, ht⟩ := ht
+      obtain ⟨hc, hx, hy, hpa, hpb, hpd, hcls⟩ := hok
+      exact where_static_sound (static_sound env c hc hi ha) (static_sound env x hx hj hb) (static_sound env y hy hk hd)
+        (hpa a ha) (hpb b hb) (hpd d hd) ht (hcls i j k hi hj hk) ho
+  | .matmul p q, o, t, hok, ho, ht => by
+      simp only [Prog.static, Option.bind_eq_some_iff] at ho; simp only [Prog.shape, Option.bind_eq_some_iff] at ht
+      obtain ⟨i, hi, j, hj, ho⟩ := ho; obtain ⟨a, ha, b, hb, ht⟩ := ht
+      obtain ⟨hp, hq, hpa, hpb⟩ := hok
+      exact matmul_static_sound (static_sound env p hp hi ha) (static_sound env q hq hj hb) (hpa a ha) (hpb b hb) ht ho
 
 /-- a depth-3 instance: `sum(transpose(add(cl[2,3], cs[1,3]), (1,0)), axis=0)` on the run-time shapes (2,2) and (1,3)
     is refused by NumPy (2 vs 3) — on (2,3),(1,3) the result (2) is an instance of the inferred `fixedDim 1, atMost 6` -/
@@ -751,9 +1110,112 @@ example :
     let env : Nat → Shape := fun n => if n = 0 then [2, 3] else [1, 3]
     p.static = some ⟨.fixedDim 1, .atMost 6⟩ ∧ p.shape env = some [2] := by decide
 
+/-- a depth-3 instance over the second group: `cumsum(pad(repeat(cl[2,3], 2, axis 0), (1,0,0,2)), 0)` on the run-time shape (1,2) -/
+def exProg2 : Prog :=
+  .accumulate 0 (.pad (.ct [1, 0, 0, 2]) [1, 0, 0, 2] (.repeat (.ct 2) 2 (.cts 0) (some 0) (.leaf ⟨.clipped [2, 3], .atMost 6⟩ 0)))
+example : exProg2.static = some ⟨.clipped [5, 5], .atMost 25⟩ ∧ exProg2.shape (fun _ => [1, 2]) = some [3, 4] := by decide
+example : exProg2.ok (fun _ => [1, 2]) :=
+  ⟨⟨(by decide : (⟨.clipped [2, 3], .atMost 6⟩ : SInfo).γ [1, 2]), rfl, rfl⟩, rfl⟩
+
 /-- for every composed view: the buffer the resolver sizes from `bounded_size_v` holds the whole result -/
 theorem composed_result_buffer_fits (env : Nat → Shape) (p : Prog) {o : SInfo} {t : Shape} {cap : Nat}
     (hok : p.ok env) (ho : p.static = some o) (ht : p.shape env = some t) (hc : o.boundedSize = some cap) : prod t ≤ cap :=
   result_buffer_fits (static_sound env p hok ho ht) hc
+
+/-! ## the eval resolver (array/eval.hpp:706-879): the container chosen from the static knowledge has room -/
+
+theorem shapeCand_sound {i : SInfo} {s : Shape} (h : i.γ s) {sc : ShapeC} {sh : ShapeK} (hc : shapeCand i sc = some sh) : sh.γ s := by
+  obtain ⟨h1, h2, h3, _, _⟩ := traits_sound h
+  cases sc with
+  | c => simp only [shapeCand, Option.map_eq_some_iff] at hc; obtain ⟨l, hl, rfl⟩ := hc; exact h1 l hl
+  | l =>
+    simp only [shapeCand] at hc
+    split at hc
+    · rename_i b hb; simp only [Option.some.injEq] at hc; subst hc; have := h.1; rw [hb] at this; exact this
+    · simp at hc
+  | f => simp only [shapeCand, Option.map_eq_some_iff] at hc; obtain ⟨k, hk, rfl⟩ := hc; exact h2 k hk
+  | b => simp only [shapeCand, Option.map_eq_some_iff] at hc; obtain ⟨k, hk, rfl⟩ := hc; exact h3 k hk
+  | d => simp only [shapeCand, Option.some.injEq] at hc; subst hc; trivial
+
+theorem bufCand_sound {i : SInfo} {s : Shape} (h : i.γ s) {bc : BufC} {b : BufK} (hc : bufCand i bc = some b) : b.fits (prod s) := by
+  obtain ⟨_, _, _, h4, h5⟩ := traits_sound h
+  cases bc with
+  | f => simp only [bufCand, Option.map_eq_some_iff] at hc; obtain ⟨n, hn, rfl⟩ := hc; exact h4 n hn
+  | b =>
+    simp only [bufCand] at hc
+    split at hc
+    · rename_i m hm
+      simp only [Option.some.injEq] at hc; subst hc
+      have := h.1; rw [hm] at this
+      exact (show LeAll s m from this).prod_le
+    · simp only [Option.map_eq_some_iff] at hc; obtain ⟨n, hn, rfl⟩ := hc; exact h5 n hn
+  | d => simp only [bufCand, Option.some.injEq] at hc; subst hc; trivial
+
+theorem firstAvailable_sound {i : SInfo} {s : Shape} (h : i.γ s) : ∀ (l : List (ShapeC × BufC)) {r : ResK},
+    firstAvailable i l = some r → r.admits s
+  | [], r, hr => by simp [firstAvailable] at hr
+  | (sc, bc) :: rest, r, hr => by
+      simp only [firstAvailable] at hr
+      split at hr
+      · rename_i sh b hs hb
+        simp only [Option.some.injEq] at hr; subst hr
+        exact ⟨shapeCand_sound h hs, bufCand_sound h hb⟩
+      · exact firstAvailable_sound h rest hr
+
+/-- the default resolver always finds a container (the last pair of the list is always available) -/
+theorem eval_resolver_total (i : SInfo) : ∃ r, resolveEval i = some r := by
+  have key : ∀ (pre : List (ShapeC × BufC)), ∃ r, firstAvailable i (pre ++ [(.d, .d)]) = some r := by
+    intro pre
+    induction pre with
+    | nil => exact ⟨⟨.dyn, .dyn⟩, by simp [firstAvailable, shapeCand, bufCand]⟩
+    | cons x xs ih =>
+      obtain ⟨sc, bc⟩ := x
+      obtain ⟨r, hr⟩ := ih
+      simp only [List.cons_append, firstAvailable]
+      split
+      · exact ⟨_, rfl⟩
+      · exact ⟨r, hr⟩
+  exact key [(.c, .f), (.c, .b), (.l, .f), (.l, .b), (.f, .f), (.f, .b), (.b, .f), (.b, .b), (.d, .f), (.d, .b),
+    (.c, .d), (.l, .d), (.f, .d), (.b, .d)]
+
+/-- result_buffer_fits for the eval resolver: for EVERY run-time instance of the view type, the container chosen from the
+    static knowledge can be given the run-time shape and its data buffer holds every element (a fixed buffer has exactly
+    as many, a bounded one at least as many): nothing is clipped and no `resize` is ignored -/
+theorem eval_result_buffer_fits {i : SInfo} {s : Shape} {r : ResK} (h : i.γ s) (hr : resolveEval i = some r) : r.admits s :=
+  firstAvailable_sound h evalPriority hr
+
+/-- capacity form: the run-time size never exceeds the capacity of the chosen data buffer -/
+theorem eval_capacity_ge_size {i : SInfo} {s : Shape} {r : ResK} {cap : Nat} (h : i.γ s) (hr : resolveEval i = some r)
+    (hc : r.buf.capacity = some cap) : prod s ≤ cap := by
+  have := (eval_result_buffer_fits h hr).2
+  cases hb : r.buf <;> rw [hb] at this hc <;> simp only [BufK.capacity, Option.some.injEq] at hc <;> simp only [BufK.fits] at this
+  · omega
+  · omega
+  · simp at hc
+
+/-- the static knowledge of the RESULT type is again true of the instance (results feed further views) -/
+theorem eval_result_info_sound {i : SInfo} {s : Shape} {r : ResK} (h : i.γ s) (hr : resolveEval i = some r) : r.info.γ s := by
+  obtain ⟨h1, h2⟩ := eval_result_buffer_fits h hr
+  refine ⟨h1, ?_⟩
+  unfold ResK.info
+  cases hsh : r.shape with
+  | const l => rw [hsh] at h1; simp only [ShapeK.γ] at h1; subst h1; simp [SizeK.γ]
+  | clipped b => cases hb : r.buf <;> rw [hb] at h2 <;> simpa [BufK.fits, SizeK.γ] using h2
+  | fixedDim n => cases hb : r.buf <;> rw [hb] at h2 <;> simpa [BufK.fits, SizeK.γ] using h2
+  | boundedDim n => cases hb : r.buf <;> rw [hb] at h2 <;> simpa [BufK.fits, SizeK.γ] using h2
+  | dyn => cases hb : r.buf <;> rw [hb] at h2 <;> simpa [BufK.fits, SizeK.γ] using h2
+
+example : resolveEval ⟨.clipped [3, 3], .any⟩ = some ⟨.clipped [3, 3], .bounded 9⟩ := by decide
+example : resolveEval ⟨.fixedDim 2, .atMost 36⟩ = some ⟨.fixedDim 2, .bounded 36⟩ := by decide
+example : resolveEval ⟨.boundedDim 3, .known 6⟩ = some ⟨.boundedDim 3, .fixed 6⟩ := by decide
+example : (⟨.clipped [3, 3], .bounded 9⟩ : ResK).admits [2, 3] := by decide
+/-- why the soundness of the traits matters here: the unsound `fixed_size = 18` of the known `where` finding makes the
+    resolver choose a buffer the 6-element instance does not fit -/
+example : resolveEval ⟨.fixedDim 2, .known 18⟩ = some ⟨.fixedDim 2, .fixed 18⟩ ∧ ¬ (⟨.fixedDim 2, .fixed 18⟩ : ResK).admits [2, 3] := by decide
+
+/-- for every composed view: the container `array::eval` allocates holds the whole result -/
+theorem composed_eval_result_fits (env : Nat → Shape) (p : Prog) {o : SInfo} {t : Shape} {r : ResK}
+    (hok : p.ok env) (ho : p.static = some o) (ht : p.shape env = some t) (hr : resolveEval o = some r) : r.admits t :=
+  eval_result_buffer_fits (static_sound env p hok ho ht) hr
 
 end NmVerif.Props.C11
